@@ -8,6 +8,7 @@
 //	killout       print one well-formed issue (flushed), then kill itself with SIGKILL
 //	garbage       print text that is not the tool's output format
 //	trailing      print well-formed output followed by text that is not part of the format
+//	empty         exit 0 without printing anything (not even shellcheck's "[]")
 //	slow=<ms>     sleep before answering
 //	noread        exit(0) without reading stdin (shellcheck prints "[]")
 //
@@ -78,7 +79,7 @@ func main() {
 	if m := markRe.FindSubmatch(in); m != nil {
 		spec = string(m[1])
 	}
-	issues, exit, kill, garbage, killout, trailing := 0, 0, false, false, false, false
+	issues, exit, kill, garbage, killout, trailing, empty := 0, 0, false, false, false, false, false
 	for _, it := range strings.Split(spec, ",") {
 		kv := strings.SplitN(it, "=", 2)
 		val := 0
@@ -98,6 +99,8 @@ func main() {
 			garbage = true
 		case "trailing":
 			trailing = true
+		case "empty":
+			empty = true
 		case "slow":
 			time.Sleep(time.Duration(val) * time.Millisecond)
 		}
@@ -118,6 +121,8 @@ func main() {
 		time.Sleep(time.Second)
 	case exit != 0:
 		os.Exit(exit)
+	case empty:
+		os.Exit(0)
 	case garbage:
 		fmt.Print("this is not the output format <<<\n")
 		if mode == "shellcheck" {
